@@ -27,7 +27,7 @@ func init() {
 	register(&Property{
 		ID:        "C29",
 		Title:     "Kubernetes NetworkPolicy keeps its Kubernetes meaning after conversion",
-		Technique: "static analysis: go/types field universes of the k8s API structs, SSA enum-comparison exhaustiveness, field-/context-/branch-sensitive backward provenance slicing (go/ssa) of the converted v3 policy",
+		Technique: "static analysis: go/types field universes of the k8s API structs, SSA enum-comparison exhaustiveness, field-/context-/branch-sensitive backward provenance slicing (go/ssa) of the converted v3 policy, natural-loop loop-carried dependence and accumulator monotonicity",
 		DesignRef: "DESIGN.md §3 C29",
 		Explanation: "Decides structural necessary conditions on converter.K8sNetworkPolicyToCalico and everything it reaches in the conversion package: " +
 			"(cover) every field that go/types reports for NetworkPolicySpec, NetworkPolicyIngressRule, NetworkPolicyEgressRule, NetworkPolicyPeer, IPBlock, NetworkPolicyPort, LabelSelector and LabelSelectorRequirement " +
@@ -41,8 +41,10 @@ func init() {
 			"(path cut over comparison edges, bool flags followed through phis/helpers; Ingress additionally under 'no type established'), and every condition such a site is control-dependent on " +
 			"(post-dominator control dependence, transitive) has a provenance inside spec.policyTypes — nothing derived from spec.ingress/spec.egress; " +
 			"(ownlabels) in the conversion and update-processor packages a store of projectcalico.org/namespace, /orchestrator or /serviceaccount into a label map is never followed (CFG reachability, closures placed at their MakeClosure) " +
-			"by a bulk copy, a non-constant-key store or a delete/clear on the same map, so the labels that namespace-scope converted policies cannot be overridden by the pod's own labels.",
-		NotDecided: "That the generated selector strings and port strings mean the same as the k8s objects (string formats, all() for the empty namespace selector, SimplifyPorts arithmetic); " +
+			"by a bulk copy, a non-constant-key store or a delete/clear on the same map, so the labels that namespace-scope converted policies cannot be overridden by the pod's own labels; " +
+			"(peerlocal) Kubernetes ORs the peers of a rule and an ipBlock's except list only cuts into its own cidr, while a Calico rule ANDs NotNets against all its Nets: in every loop that walks NetworkPolicyPeer elements, the value stored into EntityRule.Nets / NotNets and the rule object written to have no loop-carried dependence (no accumulator across peers, no element of the rules built so far; natural loops + backward data slice, helpers lifted to their call sites); " +
+			"(rangebound) the running upper bound of a coalesced port range - the loop-carried value that reaches numorstring.PortFromRange's max argument - never moves down: every back-edge update is the bound itself, max() with it, bound+const, assigned under a comparison new >= bound, or the sort key of an element of a slice sorted ascending on that very key before the loop (sort.Ints/slices.Sort/sort.Slice/slices.SortFunc comparators are parsed); an element projection other than the sort key, or an element of an unsorted slice, is a violation.",
+		NotDecided: "That the generated selector strings and port strings mean the same as the k8s objects (string formats, all() for the empty namespace selector); SimplifyPorts arithmetic beyond the monotonicity of the range's upper bound (gap test, lower bound, that the scan visits the sorted slice front to back, uint16 overflow); merging of peers that would be semantically harmless (ipBlocks without except) is rejected by peerlocal as well; " +
 			"evaluation of the converted policy on traffic; that the PolicyTypes flag variables are initialised false is decided, but not what Felix does with a given Types list; the values stored under the owned label keys; label maps built outside the two packages (clientv3); the v3→model conversion in syncersv1/updateprocessors; AdminNetworkPolicy conversion.",
 		Assumptions: []string{
 			"go/types + go/ssa (x/tools v0.50.0) model of the current source; k8s.io/api and apimachinery types from the module cache version selected by /repo/go.mod",
@@ -91,6 +93,24 @@ func init() {
 				Old: "\t\tlabels[apiv3.LabelServiceAccount] = pod.Spec.ServiceAccountName\n\t}\n", New: "\t\tlabels[apiv3.LabelServiceAccount] = pod.Spec.ServiceAccountName\n\t}\n\tfor k, v := range pod.Labels {\n\t\tlabels[k] = v\n\t}\n", Expect: "C29.ownlabels/defaultWorkloadEndpointConverter.podToDefaultWorkloadEndpoint/LabelServiceAccount"},
 			{Name: "network set labels copied over the namespace label", File: "libcalico-go/lib/backend/syncersv1/updateprocessors/networksetprocessor.go",
 				Old: "\tmaps.Copy(labelsWithCalicoNamespace, v3res.GetLabels())\n\tlabelsWithCalicoNamespace[apiv3.LabelNamespace] = v3res.Namespace\n", New: "\tlabelsWithCalicoNamespace[apiv3.LabelNamespace] = v3res.Namespace\n\tmaps.Copy(labelsWithCalicoNamespace, v3res.GetLabels())\n", Expect: "C29.ownlabels/convertNetworkSetV2ToV1Value/LabelNamespace"},
+			{Name: "ipBlock exceptions accumulated across the peers of a rule", File: c29ConvGo,
+				Old:    "\t\tfor _, peer := range peers {\n\t\t\tselector, nsSelector, nets, notNets := c.k8sPeerToCalicoFields(peer)\n",
+				New:    "\t\tvar allNotNets []string\n\t\tfor _, peer := range peers {\n\t\t\tselector, nsSelector, nets, peerNotNets := c.k8sPeerToCalicoFields(peer)\n\t\t\tallNotNets = append(allNotNets, peerNotNets...)\n\t\t\tnotNets := allNotNets\n",
+				Expect: "C29.peerlocal/converter.k8sRuleToCalico/NotNets"},
+			{Name: "ipBlock CIDRs accumulated across the peers of a rule (each peer's exceptions then apply to the union)", File: c29ConvGo,
+				Old:    "\t\tfor _, peer := range peers {\n\t\t\tselector, nsSelector, nets, notNets := c.k8sPeerToCalicoFields(peer)\n",
+				New:    "\t\tvar allNets []string\n\t\tfor _, peer := range peers {\n\t\t\tselector, nsSelector, peerNets, notNets := c.k8sPeerToCalicoFields(peer)\n\t\t\tallNets = append(allNets, peerNets...)\n\t\t\tnets := allNets\n",
+				Expect: "C29.peerlocal/converter.k8sRuleToCalico/Nets"},
+			{Name: "further ipBlock peers folded into the rule generated for the first one", File: c29ConvGo,
+				Old:    "\t\tfor _, peer := range peers {\n\t\t\tselector, nsSelector, nets, notNets := c.k8sPeerToCalicoFields(peer)\n",
+				New:    "\t\tipBlockRule := -1\n\t\tfor _, peer := range peers {\n\t\t\tselector, nsSelector, nets, notNets := c.k8sPeerToCalicoFields(peer)\n\t\t\tif len(nets) > 0 {\n\t\t\t\tif ipBlockRule >= 0 {\n\t\t\t\t\ter := &rules[ipBlockRule].Destination\n\t\t\t\t\tif ingress {\n\t\t\t\t\t\ter = &rules[ipBlockRule].Source\n\t\t\t\t\t}\n\t\t\t\t\ter.Nets = append(er.Nets, nets...)\n\t\t\t\t\ter.NotNets = append(er.NotNets, notNets...)\n\t\t\t\t\tcontinue\n\t\t\t\t}\n\t\t\t\tipBlockRule = len(rules)\n\t\t\t}\n",
+				Expect: "C29.peerlocal/converter.k8sRuleToCalico/NotNets"},
+			{Name: "numeric ports no longer sorted before they are coalesced into ranges", File: c29ConvGo,
+				Old: "\tsort.Ints(numericPorts)\n", New: "", Expect: "C29.rangebound/SimplifyPorts/upper-bound-monotone"},
+			{Name: "SimplifyPorts coalesces [min,max] intervals sorted by min and overwrites the range end with the next interval's max", File: c29ConvGo,
+				Old:    "\tvar numericPorts []int\n\tvar outputPorts []numorstring.Port\n\tfor _, p := range ports {\n\t\tif p.PortName != \"\" {\n\t\t\t// Pass named ports through immediately, there's nothing to be done for them.\n\t\t\toutputPorts = append(outputPorts, p)\n\t\t} else {\n\t\t\t// Work with ints to avoid overflow with the uint16 port type.\n\t\t\t// In practice, we currently only get single ports here so this\n\t\t\t// loop should run exactly once.\n\t\t\tfor i := int(p.MinPort); i <= int(p.MaxPort); i++ {\n\t\t\t\tnumericPorts = append(numericPorts, i)\n\t\t\t}\n\t\t}\n\t}\n\n\tif len(numericPorts) <= 1 {\n\t\t// We have nothing to combine, short-circuit.\n\t\treturn ports\n\t}\n\n\t// Sort the ports so it will be easy to find ranges.\n\tsort.Ints(numericPorts)\n\n\t// Each pass around this outer loop extracts one port range from the sorted slice\n\t// and it moves the slice along to the start of the next range.\n\tfor len(numericPorts) > 0 {\n\t\t// Initialise the next range to the contain only the first port in the slice.\n\t\tfirstPortInRange := numericPorts[0]\n\t\tlastPortInRange := firstPortInRange\n\n\t\t// Scan ahead, looking for ports that can be combined into this range.\n\t\tnumericPorts = numericPorts[1:]\n\t\tfor len(numericPorts) > 0 {\n\t\t\tnextPort := numericPorts[0]\n\t\t\tif nextPort > lastPortInRange+1 {\n\t\t\t\t// This port can't be coalesced with the existing range, break out so\n\t\t\t\t// that we record the range; then we'll loop again and pick up this\n\t\t\t\t// port as the start of a new range.\n\t\t\t\tbreak\n\t\t\t}\n\t\t\t// The next port is either equal to the last port (due to a duplicate port\n\t\t\t// in the input) or it is exactly one greater.  Extend the range to include\n\t\t\t// it.\n\t\t\tlastPortInRange = nextPort\n",
+				New:    "\tvar numericPorts []numorstring.Port\n\tvar outputPorts []numorstring.Port\n\tfor _, p := range ports {\n\t\tif p.PortName != \"\" {\n\t\t\t// Pass named ports through immediately, there's nothing to be done for them.\n\t\t\toutputPorts = append(outputPorts, p)\n\t\t} else {\n\t\t\t// Single port or a port range (from endPort); either way it's a [MinPort, MaxPort]\n\t\t\t// interval.  Keep it as an interval rather than expanding it port-by-port; a\n\t\t\t// policy with a wide endPort range would otherwise cost tens of thousands of entries.\n\t\t\tnumericPorts = append(numericPorts, p)\n\t\t}\n\t}\n\n\tif len(numericPorts) <= 1 {\n\t\t// We have nothing to combine, short-circuit.\n\t\treturn ports\n\t}\n\n\t// Sort the intervals by their first port so it will be easy to find ranges.\n\tsort.Slice(numericPorts, func(i, j int) bool {\n\t\treturn numericPorts[i].MinPort < numericPorts[j].MinPort\n\t})\n\n\t// Each pass around this outer loop extracts one port range from the sorted slice\n\t// and it moves the slice along to the start of the next range.\n\tfor len(numericPorts) > 0 {\n\t\t// Initialise the next range to the contain only the first interval in the slice.\n\t\t// Work with ints to avoid overflow with the uint16 port type.\n\t\tfirstPortInRange := int(numericPorts[0].MinPort)\n\t\tlastPortInRange := int(numericPorts[0].MaxPort)\n\n\t\t// Scan ahead, looking for intervals that can be combined into this range.\n\t\tnumericPorts = numericPorts[1:]\n\t\tfor len(numericPorts) > 0 {\n\t\t\tnext := numericPorts[0]\n\t\t\tif int(next.MinPort) > lastPortInRange+1 {\n\t\t\t\t// This interval can't be coalesced with the existing range, break out so\n\t\t\t\t// that we record the range; then we'll loop again and pick up this\n\t\t\t\t// interval as the start of a new range.\n\t\t\t\tbreak\n\t\t\t}\n\t\t\t// The next interval either overlaps the range (e.g. due to a duplicate port\n\t\t\t// in the input) or it starts exactly one port after it.  Extend the range to\n\t\t\t// include it.\n\t\t\tlastPortInRange = int(next.MaxPort)\n",
+				Expect: "C29.rangebound/SimplifyPorts/upper-bound-monotone"},
 			{Name: "ports matched on the source", File: c29ConvGo,
 				Old: "\t\t\t\t\tDestination: apiv3.EntityRule{\n\t\t\t\t\t\tPorts: calicoPorts,\n\t\t\t\t\t},", New: "", Expect: "C29.dir/Ingress.Destination.Ports"},
 		},
@@ -152,11 +172,17 @@ func runC29(c *Ctx) {
 	c.Rule("C29.types", "E-GUARD/E-FLOW", "a v3 PolicyType constant is placed into Spec.Types only on paths that established that spec.policyTypes contains the Kubernetes constant of the same value (Ingress additionally as the default when no type was established), and every condition such a site is control-dependent on derives from spec.policyTypes only (nothing derived from the rule sections)", 4)
 	c.Rule("C29.ownlabels", "E-ORDER", "a store of a Calico-owned label key (projectcalico.org/namespace, /orchestrator, /serviceaccount) into a label map is never followed by a write of user-controlled keys into the same map (bulk copy, non-constant key, delete/clear): the owned value wins over a pod's own label of that key", 5)
 
+	c.Rule("C29.peerlocal", "E-FLOW (loop-carried dependence)", "the Nets / NotNets of every generated v3 rule come from ONE Kubernetes peer: in each loop over NetworkPolicyPeer elements neither the value stored into EntityRule.Nets/NotNets nor the rule object written to depends on an earlier iteration (no accumulator, no element of the rules built so far)", 2)
+
+	c.Rule("C29.rangebound", "E-FLOW (loop-carried accumulator monotonicity)", "the running upper bound of a coalesced port range (the loop-carried value that reaches PortFromRange's max) never moves down: each back-edge update is the bound itself, max()/bound+const, assigned under a comparison new >= bound, or the sort key of an element of a slice sorted ascending on that key before the loop", 1)
+
 	c29Cover(c, p, ty, cl)
 	c29Enums(c, p, ty, cl)
 	c29Dir(c, p, ty, top, cl)
 	c29TypesRule(c, p, ty, cl)
 	c29OwnLabels(c, p)
+	c29PeerLocal(c, p, ty, cl)
+	c29RangeBound(c, p, cl)
 }
 
 // ------------------------------------------------------------------ cover --
